@@ -9,8 +9,8 @@ import (
 
 // RecMetrics is a monitoring.MetricFactory that records every increment.
 type RecMetrics struct {
-	mu   sync.Mutex
-	vals map[string]int64 // "counter|label|label"
+	mu    sync.Mutex
+	vals  map[string]int64 // "counter|label|label"
 	names []string
 }
 
